@@ -5,9 +5,10 @@ import ast
 
 import numpy as np
 
-from ..interp import (NOT_HANDLED, TOP, BoundMethod, Closure, Env, Ext, Hooks, Interp, Obj, guard, site_of,
+from ..interp import (NOT_HANDLED, TOP, BoundMethod, Closure, Env, Ext, Hooks, Interp, Obj, PathRaise, Unsupported, guard,
+                      site_of,
                       truth)
-from ..model import AnalysisError
+from ..model import AnalysisError, walk_no_nested
 from ..nphooks import np_name
 from ..report import Ctx
 from ..symnp import Entry, call_numpy, entry_array
@@ -222,11 +223,24 @@ class _EffHooks(TermHooks):
     """Interprets a boolean expression where names bound to an effective-error
     value become terms and predicate calls become atoms."""
 
-    def __init__(self, store, kinds):
+    def __init__(self, store, kinds, defs=None):
         self.store, self.kinds = store, kinds
+        self.defs = defs or {}          # local name -> [defining expressions] of the enclosing function
+        self._active = set()
 
     def global_name(self, it, name, env):
         k = self.kinds.get(name)
+        if k is None and len(self.defs.get(name, ())) == 1 and name not in self._active:
+            # an intermediate local with a single definition: look through it
+            self._active.add(name)
+            try:
+                v = it.ev(self.defs[name][0], env)
+            except (AnalysisError, PathRaise, Unsupported, RecursionError):
+                v = TOP
+            finally:
+                self._active.discard(name)
+            if v is not TOP:
+                return v
         if k == 'A':
             return Atom('A', it, self.store)
         if k == 'B':
@@ -287,7 +301,15 @@ class _NotAtom:
 def _table_with_effect_terms(ctx: Ctx, mi, fn, expr: ast.expr, kinds: dict) -> dict:
     m = ctx.model
     store = {}
-    hooks = _EffHooks(store, kinds)
+    defs: dict = {}
+    for node in walk_no_nested(fn):
+        if isinstance(node, ast.Assign) and len(node.targets) == 1 and isinstance(node.targets[0], ast.Name):
+            defs.setdefault(node.targets[0].id, []).append(node.value)
+        elif isinstance(node, (ast.AugAssign, ast.For, ast.With, ast.AnnAssign)):
+            for t in ast.walk(node.target if hasattr(node, 'target') else node):
+                if isinstance(t, ast.Name) and isinstance(t.ctx, ast.Store):
+                    defs.setdefault(t.id, []).extend([None, None])
+    hooks = _EffHooks(store, kinds, defs)
     it = Interp(m, hooks)
 
     def thunk():
